@@ -30,7 +30,8 @@ var Dict = []string{
 	"1.0.0.0.0.0.0.0.0.0.0.0.0.0.0.0.0.0.0.0.0.0.0.0.0.0.0.0.0.0.0.0.ip6.arpa",
 	"1.0.0.0.0.0.0.0.0.0.0.0.0.0.0.0.0.0.0.0.0.0.0.0.0.0.0.0.0.0.0.0.0.ip6.arpa",
 	"example.com", "example.com.", "EXAMPLE.COM", "-a.com", "a-.com", "a..com", "_srv._tcp.example.com",
-	"xn--", "xn--a", "xn--p1ai", "XN--P1AI", "пример.рф", "123", "a.123", "1.2.3.4.5",
+	"xn--", "xn--a", "xn--p1ai", "XN--P1AI", "xn--a-", "xn--xn--a--", "a.xn--com-", "4.3.2.1.xn--in-addr-.arpa", "4.3.2.1.in-addr.xn--arpa-", "xn--4-.3.2.1.in-addr.arpa", "XN--0.com", "Xn--abc-.com",
+	"1.2.3.4:8\U00010030", "1.2.3.\U00010034", "1.2.3.4\u0130", "[::1]:\u0138\u0130", "пример.рф", "123", "a.123", "1.2.3.4.5",
 	strings.Repeat("a", 63), strings.Repeat("a", 64), strings.Repeat("a", 63) + ".com",
 	strings.Repeat("a.", 126) + "a", strings.Repeat("a.", 127) + "a", strings.Repeat("ab.", 84) + "c",
 	"1.2.3.4 host", "1.2.3.4 host # c", "#", "# comment", "1.2.3.4", "::1 localhost ip6-localhost",
@@ -70,16 +71,49 @@ func Edits(t *rapid.T, s string, max int, alphabet []string) (out string, n int)
 			continue
 		}
 		p := rapid.IntRange(0, len(s)-1).Draw(t, "pos")
-		switch rapid.IntRange(0, 2).Draw(t, "edit") {
+		switch rapid.IntRange(0, 3).Draw(t, "edit") {
 		case 0:
 			s = s[:p] + s[p+1:]
 		case 1:
 			s = s[:p] + rapid.SampledFrom(alphabet).Draw(t, "ins") + s[p:]
+		case 2:
+			if s[p] < 0x80 {
+				s = s[:p] + AliasOf(t, s[p]) + s[p+1:]
+				continue
+			}
+			fallthrough
 		default:
 			s = s[:p] + rapid.SampledFrom(alphabet).Draw(t, "rep") + s[p+1:]
 		}
 	}
 	return s, n
+}
+
+// AliasOf returns a non-ASCII rune that a narrowing conversion (byte(r),
+// uint16(r)) maps to the ASCII byte c: c+0x100..c+0x300 and c+0x10000*k.  Code
+// that classifies runes after such a conversion takes them for c.
+func AliasOf(t *rapid.T, c byte) string {
+	k := rapid.IntRange(0, 18).Draw(t, "alias")
+	if k < 3 {
+		return string(rune(c) + 0x100*rune(k+1))
+	}
+	return string(rune(c) + 0x10000*rune(k-2))
+}
+
+// WrapACE wraps one dot-separated label of s as a fake A-label
+// "xn--<label>-" (idna.ToASCII decodes it back to <label>), optionally nested
+// twice and with an upper-case prefix: names whose IDNA conversion is ASCII
+// but different from the input.
+func WrapACE(t *rapid.T, s string) string {
+	parts := strings.Split(s, ".")
+	i := rapid.IntRange(0, len(parts)-1).Draw(t, "acelabel")
+	pre := rapid.SampledFrom([]string{"xn--", "xn--", "xn--", "XN--", "Xn--", "xn--xn--"}).Draw(t, "aceprefix")
+	suf := "-"
+	if pre == "xn--xn--" {
+		suf = "--"
+	}
+	parts[i] = pre + parts[i] + suf
+	return strings.Join(parts, ".")
 }
 
 // ---------------------------------------------------------------------------
@@ -237,6 +271,14 @@ var name = rapid.OneOf(
 	}),
 	nameFill,
 	rapid.Custom(func(t *rapid.T) string {
+		// A valid (or long) name with one label wrapped as a fake A-label.
+		base := validName
+		if rapid.IntRange(0, 4).Draw(t, "long") == 0 {
+			base = nameFill
+		}
+		return WrapACE(t, base.Draw(t, "base"))
+	}),
+	rapid.Custom(func(t *rapid.T) string {
 		// Long names made of many short labels.
 		n := rapid.IntRange(100, 140).Draw(t, "n")
 		l := rapid.SampledFrom([]string{"a", "1", "a-", "_a", "é"}).Draw(t, "l")
@@ -311,6 +353,8 @@ var arpa = rapid.Custom(func(t *rapid.T) string {
 		return FlipCaseBits(t, strings.ToUpper(s))
 	case 1:
 		return FlipCaseBits(t, s)
+	case 2:
+		return WrapACE(t, s)
 	}
 	return s
 })
@@ -585,12 +629,23 @@ func Addr6() *rapid.Generator[netip.Addr] { return addr6 }
 
 var addr6 = rapid.Custom(func(t *rapid.T) netip.Addr {
 	var b [16]byte
-	switch rapid.IntRange(0, 5).Draw(t, "kind") {
+	switch rapid.IntRange(0, 6).Draw(t, "kind") {
 	case 0:
 		// v4-mapped
 		b[10], b[11] = 0xff, 0xff
 		for i := 12; i < 16; i++ {
 			b[i] = addrByte.Draw(t, "b")
+		}
+	case 6:
+		// near-mapped: the ::ffff:0:0/96 pattern with one or two of its
+		// twelve prefix bytes changed (plain IPv6 that a loose "is it
+		// mapped" test takes for IPv4)
+		b[10], b[11] = 0xff, 0xff
+		for i := 12; i < 16; i++ {
+			b[i] = addrByte.Draw(t, "b")
+		}
+		for k := rapid.IntRange(1, 2).Draw(t, "k"); k > 0; k-- {
+			b[rapid.IntRange(0, 11).Draw(t, "i")] = rapid.SampledFrom([]byte{0, 1, 0x80, 0xfe, 0xff}).Draw(t, "v")
 		}
 	case 1:
 		// sparse
